@@ -11,6 +11,7 @@ use vstd::prelude::*;
 use vstd::std_specs::ops::*;
 use vstd::std_specs::convert::FromSpec;
 verus! {
+global size_of usize == 8;
 //@include ../_shared/floats.rs
 
 //@extract struct bigtools/src/bbi.rs Value
@@ -198,18 +199,18 @@ verus! {
 //@sub /(\*?\w+(?:\.\w+)*) as f32\b/ => f32_of_f64(\1) min=0
 //@sig
     requires
-        [[L: pre]]
+        [[L: rle/pre]]
         data@.len() == DATA_SIZE, max_data_len <= DATA_SIZE,
         current_start as int + DATA_SIZE as int <= u32::MAX as int,
         max_sections <= usize::MAX / 2,
     ensures
-        [[L: every_cell_in_exactly_one_run]]
+        [[L: rle/every_cell_in_exactly_one_run]]
         runs_tile(out.1@, max_data_len as int),
-        [[L: runs_are_maximal_stretches_of_equal_sums]]
+        [[L: rle/runs_are_maximal_stretches_of_equal_sums]]
         forall|q: int| 0 <= q < out.1@.len() ==> run_ok(data@, (#[trigger] out.1@[q]).0, out.1@[q].1, max_data_len as int),
-        [[L: nonzero_runs_emitted_once_in_order_zero_runs_dropped]]
+        [[L: rle/nonzero_runs_emitted_once_in_order_zero_runs_dropped]]
         out.0@ == emit(out.1@, data@, current_start as int),
-        [[L: output_sorted_disjoint_nonempty_within_window]]
+        [[L: rle/output_sorted_disjoint_nonempty_within_window]]
         sorted_in(out.0@, current_start as int, current_start as int + max_data_len as int),
 //@open
         let ghost d = data@;
@@ -271,6 +272,7 @@ verus! {
 // C. the closure `insert_into_queue` (R10 lift), under the precondition that holds at its only call
 //    site (proved in D): the inserted value is non-empty and ends at or before the queue's first start.
 // =====================================================================================
+#[verifier::loop_isolation(false)]
 //@extract closure bigtools/src/utils/merge.rs next insert_into_queue
 //@header fn insert_into_queue(queue: &mut Vec<Value>, next_val: Value)
 //@rule R6
@@ -314,6 +316,195 @@ verus! {
 //@at /queue\.insert\(idx, insert_val\);/ after
                             proof { assert(queue@ =~= seq![next_val] + q0); }
 //@end
+
+// =====================================================================================
+// D. the skeleton of `next`: head (error flag, draining the buffered values), the window loop with
+//    phase A replaced by `accumulate_sections` (assumed fold of the proved `next_section`), phase B
+//    by the proved `rle`, the closure definition removed (the lifted `insert_into_queue` above is
+//    what the real call `insert_into_queue(&mut next_sections, last)` now resolves to), and the tail.
+//    Ghost history `hist` (added field): windows computed so far, values handed out so far.
+// =====================================================================================
+//@extract struct bigtools/src/utils/merge.rs ValueIter
+//@rule R8
+//@sub /struct ValueIter<E, I>\s*where\s*I: Iterator<Item = Result<Value, E>> \+ Send,\s*\{/ => struct ValueIter {\n    hist: Ghost<Hist>,
+//@sub /Vec<\(I, Option<Value>\)>/ => Vec<(VIter, Option<Value>)>
+//@sub /Option<Box<dyn Iterator<Item = Value> \+ Send>>/ => Option<VQueue>
+//@end
+
+spec fn buf_of(q: Option<VQueue>) -> Seq<Value> { if q is Some { q->Some_0@ } else { Seq::empty() } }
+/// values computed but not yet handed out, in the order they will be handed out
+spec fn pending_out(it: ValueIter) -> Seq<Value> { buf_of(it.next_sections) + opt_v(it.last_val) }
+spec fn live_inv(it: ValueIter) -> bool {
+    &&& conserved(it.hist@, pending_out(it))
+    &&& stream_sorted(it.hist@.wins, it.next_start as int)
+    &&& windows_ok(it.hist@.wins)
+    &&& chain_ok(it.hist@.wins, it.next_start as int, pends(it.sections@))
+    &&& inputs_ok(pends(it.sections@), it.next_start as int, it.hist@.limit)
+}
+
+impl ValueIter {
+//@extract method bigtools/src/utils/merge.rs next "Iterator for ValueIter"
+//@presub /'sections: for \(section, last\) in &mut self\.sections \{.*?\n(?=[ \t]*let mut next_sections: Vec<Value>)/ => let acc = accumulate_sections(&mut self.sections, &mut data, current_start, max_data_len, max_sections, all_none, &mut self.error);\n            max_data_len = acc.0; max_sections = acc.1; all_none = acc.2;\n            if let Some(e) = acc.3 { return Some(Err(e)); }\n
+//@presub /let mut next_sections: Vec<Value> = Vec::with_capacity.*?\n(?=[ \t]*let insert_into_queue = )/ => let rle_out = rle(&data, max_data_len, current_start, max_sections);\n            let mut next_sections: Vec<Value> = rle_out.0;\n
+//@presub /let insert_into_queue = \|.*?\n(?=[ \t]*let last_val = self\.last_val\.take\(\);)/ => ""
+//@rule R5
+//@rule R6
+//@sub /Option<Self::Item>/ => Option<Result<Value, MergeError>>
+//@sub /^\s*const DATA_SIZE: usize = \d+;\n/ => "" min=0
+//@sub /Box::new\(next_sections\.into_iter\(\)\)/ => VQueue::from_vec(next_sections) min=0
+//@sub /return ([^;]*?)\.map\(Result::Ok\);/ => return map_ok(\1); min=0
+//@ret r
+//@sig
+    requires
+        [[L: pre]]
+        !old(self).error ==> live_inv(*old(self)),
+        // (v) `current_start + DATA_SIZE as u32` must not overflow: see NOTES.md (values near u32::MAX)
+        old(self).next_start as int + DATA_SIZE as int <= u32::MAX as int,
+    ensures
+        [[L: after_an_error_always_none]]
+        old(self).error ==> r is None && final(self).error && final(self).hist@ == old(self).hist@,
+        [[L: error_is_returned_and_flag_set]]
+        (r is Some && r->Some_0 is Err) ==> final(self).error,
+        [[L: buffered_values_are_drained_in_order_before_a_new_window]]
+        (!old(self).error && buf_of(old(self).next_sections).len() > 0) ==> {
+            &&& r == Some(Ok::<Value, MergeError>(buf_of(old(self).next_sections)[0]))
+            &&& buf_of(final(self).next_sections) == buf_of(old(self).next_sections).subrange(1, buf_of(old(self).next_sections).len() as int)
+            &&& final(self).last_val == old(self).last_val && final(self).next_start == old(self).next_start
+            &&& final(self).sections@ == old(self).sections@ && final(self).hist@.wins == old(self).hist@.wins
+        },
+        [[L: emitted_log_is_exactly_the_values_returned]]
+        (r is Some && r->Some_0 is Ok) ==> final(self).hist@.emitted == old(self).hist@.emitted.push(r->Some_0->Ok_0),
+        !(r is Some && r->Some_0 is Ok) ==> final(self).hist@.emitted == old(self).hist@.emitted,
+        [[L: nothing_dropped_nothing_emitted_twice]]
+        !final(self).error ==> conserved(final(self).hist@, pending_out(*final(self))),
+        [[L: output_stream_sorted_disjoint_nonempty]]
+        !final(self).error ==> stream_sorted(final(self).hist@.wins, final(self).next_start as int),
+        [[L: every_window_is_the_rle_of_the_sums_of_its_inputs]]
+        !final(self).error ==> windows_ok(final(self).hist@.wins),
+        [[L: windows_advance_by_exactly_data_size_and_chain]]
+        !final(self).error ==> chain_ok(final(self).hist@.wins, final(self).next_start as int, pends(final(self).sections@)),
+        [[L: pending_inputs_lie_at_or_beyond_next_window]]
+        !final(self).error ==> inputs_ok(pends(final(self).sections@), final(self).next_start as int, final(self).hist@.limit),
+        [[L: none_only_when_everything_is_exhausted_and_handed_out]]
+        (r is None && !old(self).error) ==> {
+            &&& !final(self).error
+            &&& pending_out(*final(self)).len() == 0
+            &&& forall|i: int| 0 <= i < final(self).sections@.len() ==> (#[trigger] pends(final(self).sections@)[i]).len() == 0
+        },
+        [[L: history_only_grows]]
+        old(self).hist@.wins.is_prefix_of(final(self).hist@.wins), final(self).hist@.limit == old(self).hist@.limit,
+//@open
+        let ghost h0 = self.hist@;
+        let ghost n0 = self.next_start as int;
+//@at /^\s*let next = buf\.next\(\);/ before
+            let ghost b0 = buf@;
+//@at /^\s*let next = buf\.next\(\);/ after
+            proof {
+                if next is Some {
+                    self.hist@.emitted = self.hist@.emitted.push(next->Some_0);
+                    assert(self.hist@.emitted + (b0.subrange(1, b0.len() as int) + opt_v(self.last_val)) =~= h0.emitted + (b0 + opt_v(self.last_val))); [[L: drain/head_moves_from_buffer_to_emitted]]
+                } else {
+                    assert(b0.len() == 0);
+                    assert(b0 + opt_v(self.last_val) =~= Seq::<Value>::empty() + opt_v(self.last_val));
+                }
+            }
+//@at /^\s*let mut max_data_len = 0;/ before
+        proof {
+            assert(buf_of(self.next_sections).len() == 0);
+            assert(pending_out(*self) =~= opt_v(self.last_val));
+            reveal(inputs_ok);
+        }
+        let ghost bound = imax(n0, h0.limit + DATA_SIZE as int);
+//@loop 1
+            invariant
+                [[L: windows/frame]]
+                !self.error, self.next_sections is None || buf_of(self.next_sections).len() == 0,
+                h0 == old(self).hist@, n0 == old(self).next_start as int, !old(self).error, buf_of(old(self).next_sections).len() == 0,
+                self.hist@.emitted == h0.emitted, self.hist@.limit == h0.limit, h0.wins.is_prefix_of(self.hist@.wins),
+                max_data_len <= DATA_SIZE,
+                [[L: windows/no_overflow_of_next_start]]
+                bound == imax(n0, h0.limit + DATA_SIZE as int), bound + DATA_SIZE as int <= u32::MAX as int,
+                self.next_start as int <= bound,
+                [[L: windows/nothing_dropped_nothing_emitted_twice]]
+                conserved(self.hist@, opt_v(self.last_val)),
+                [[L: windows/output_stream_sorted]]
+                stream_sorted(self.hist@.wins, self.next_start as int),
+                [[L: windows/records]]
+                windows_ok(self.hist@.wins),
+                chain_ok(self.hist@.wins, self.next_start as int, pends(self.sections@)),
+                inputs_ok(pends(self.sections@), self.next_start as int, self.hist@.limit),
+            decreases
+                [[L: windows/termination]]
+                bound + DATA_SIZE as int - self.next_start as int,
+//@at /^\s*let mut data = vec!\[0f64; DATA_SIZE\];/ after
+            let ghost pre = pends(self.sections@);
+            let ghost hw = self.hist@;
+            let ghost lv0 = self.last_val;
+            proof {
+                assert(data@ =~= zeros());
+                reveal(inputs_ok);
+                assert(self.next_start as int == current_start as int + DATA_SIZE as int); [[L: windows/next_window_starts_where_this_one_ends]]
+            }
+//@at /^\s*let rle_out = rle\(/ before
+            let ghost ks = acc.4@;
+            let ghost post = pends(self.sections@);
+            proof {
+                lemma_step_inputs(pre, ks, current_start as int, hw.limit, post);
+                lemma_total_len_suffix_bound(pre, max_sections as int);
+            }
+//@at /^\s*let last_val = self\.last_val\.take\(\);/ before
+            let ghost w = Win { cs: current_start as int, pre: pre, ks: ks, data: data@, mdl: max_data_len as int, runs: rle_out.1@, out: next_sections@ };
+            proof {
+                assert(win_ok(w)); [[L: windows/window_record_is_fold_then_rle]]
+                lemma_step_stream(hw, lv0, w);
+                lemma_step_windows(hw.wins, w);
+                lemma_step_chain(hw.wins, w, pre, post);
+                self.hist@.wins = hw.wins.push(w);
+                assert(h0.wins.is_prefix_of(self.hist@.wins));
+            }
+            let ghost runs_out = next_sections@;
+//@at /^\s*if let Some\(last\) = last_val \{/ before
+            proof {
+                if last_val is Some {
+                    assert(runs_out.len() > 0 ==> last_val->Some_0.end <= runs_out[0].start); [[L: call_site/held_back_value_ends_at_or_before_first_new_run]]
+                }
+            }
+//@at /^\s*if !next_sections\.is_empty\(\) \{/ nth=1 before
+            let ghost queue = next_sections@;
+            proof {
+                assert(queue =~= opt_v(lv0) + runs_out); [[L: tail/queue_is_held_back_value_then_new_runs]]
+                assert(self.last_val is None);
+            }
+//@at /^\s*if !next_sections\.is_empty\(\) \{/ nth=2 before
+            proof {
+                assert(next_sections@ + opt_v(self.last_val) =~= queue); [[L: tail/last_value_of_the_queue_is_held_back_the_rest_keeps_its_order]]
+            }
+//@at /^\s*self\.next_sections = Some\(/ before
+                proof {
+                    let first = next_sections@[0];
+                    self.hist@.emitted = self.hist@.emitted.push(first);
+                    assert(self.hist@.emitted + (next_sections@.subrange(1, next_sections@.len() as int) + opt_v(self.last_val)) =~= h0.emitted + (next_sections@ + opt_v(self.last_val))); [[L: tail/first_of_the_rest_is_returned_the_others_buffered]]
+                }
+//@at /^\s*if all_none \{/ after
+                proof {
+                    assert(next_sections@.len() == 0); [[L: tail/final_value_only_after_the_queue_is_handed_out]]
+                    lemma_none_taken_exhausted(pre, ks, current_start as int + DATA_SIZE as int);
+                    if self.last_val is Some {
+                        self.hist@.emitted = self.hist@.emitted.push(self.last_val->Some_0);
+                        assert(self.hist@.emitted + Seq::<Value>::empty() =~= h0.emitted + opt_v(self.last_val));
+                    }
+                    assert(buf_of(self.next_sections) + opt_v(None::<Value>) =~= Seq::<Value>::empty());
+                }
+//@loopend 1
+            proof {
+                assert(next_sections@.len() == 0);
+                assert(opt_v(self.last_val) =~= queue);
+                // the loop goes on only while some section still saw a value: the window start is not past the last input base
+                if current_start as int > hw.limit { lemma_past_limit(pre, ks, current_start as int, hw.limit); }
+                assert(current_start as int <= hw.limit); [[L: windows/loop_goes_on_only_below_the_last_input_base]]
+            }
+//@end
+}
 
 } // verus!
 fn main() {}
